@@ -358,6 +358,76 @@ def e2e(rep, tier, seed):
     return found
 
 
+NAMED_ATTR = "#[custom(keep,   %s,\n  layout)]"
+NAMED_MAC = "custom_mac!(keep,   %s ,\n  layout  )"
+# where the named attribute / the named macro call stands (TAG = the marker); every nested formatter (impl / trait items, closure and
+# block bodies, nested modules, match arms) has to know the names declared outside it
+NAMED_ATTR_POS = {
+    "top_fn": "%(A)s\nfn  top( ) {}\n", "impl_item": "impl Foo {\n    %(A)s\n    fn  method( &self ) {}\n}\n", "trait_item": "trait Bar {\n    %(A)s\n    fn  required( &self );\n}\n",
+    "stmt": "fn caller() {\n    %(A)s\n    let a  =  1;\n}\n", "closure_stmt": "fn caller() {\n    let f = || {\n        %(A)s\n        let b  =  2;\n        b\n    };\n}\n",
+    "block_stmt": "fn caller() {\n    let g = {\n        %(A)s\n        let c  =  3;\n        c\n    };\n}\n", "field": "struct S {\n    %(A)s\n    a :  u8,\n}\n",
+    "variant": "enum E {\n    %(A)s\n    V( u8 ),\n}\n", "nested_mod_fn": "mod inner {\n    mod deeper {\n        %(A)s\n        fn  deep( ) {}\n    }\n}\n",
+    "impl_fn_stmt": "impl Foo {\n    fn m(&self) {\n        %(A)s\n        let d  =  4;\n    }\n}\n", "match_arm_block": "fn caller() {\n    match x {\n        A => {\n            %(A)s\n            let e  =  5;\n        }\n        _ => {}\n    }\n}\n",
+}
+NAMED_MAC_POS = {
+    "stmt": "fn caller() {\n    %(M)s;\n}\n", "let_init": "fn caller() {\n    let v  =  %(M)s;\n}\n", "item": "%(M)s;\n", "impl_fn_stmt": "impl Foo {\n    fn m( &self ) {\n        %(M)s;\n    }\n}\n",
+    "closure_body": "fn caller() {\n    let f = || {\n        %(M)s;\n        1\n    };\n}\n", "call_arg": "fn caller() {\n    wrap( 1,  %(M)s );\n}\n",
+    "nested_mod_fn": "mod inner {\n    fn deep() {\n        %(M)s;\n    }\n}\n", "match_arm": "fn caller() {\n    match x {\n        A  =>  %(M)s,\n        _ => other(),\n    }\n}\n",
+    "trait_default_fn": "trait Bar {\n    fn d( &self ) {\n        %(M)s;\n    }\n}\n",
+}
+
+
+def named_skips(rep, tier, seed):
+    """an attribute named by rustfmt::skip::attributes and the arguments of a macro named by rustfmt::skip::macros /
+    skip_macro_invocations keep their bytes, wherever they stand below the declaration of the name"""
+    cases, meta = [], []
+    for pos, tmpl in sorted(NAMED_ATTR_POS.items()):
+        attr = NAMED_ATTR % pos
+        body = tmpl % {"A": attr.replace("\n", "\n")}
+        decls = {"crate": "#![rustfmt::skip::attributes(custom)]\n" + body,
+                 "enclosing_mod": "#[rustfmt::skip::attributes(custom)]\nmod outer {\n" + body + "}\n"}
+        if pos in ("stmt", "closure_stmt", "block_stmt", "match_arm_block"):
+            decls["enclosing_fn"] = body.replace("fn caller() {", "#[rustfmt::skip::attributes(custom)]\nfn caller() {", 1)
+        if pos in ("impl_item", "impl_fn_stmt"):
+            decls["enclosing_impl"] = "#[rustfmt::skip::attributes(custom)]\n" + body
+        for dname, text in sorted(decls.items()):
+            for w in ("100", "30"):
+                cases.append({"text": text, "config": [["max_width", w]], "again": False, "lex": False})
+                meta.append(("attributes", pos, dname, attr))
+    for pos, tmpl in sorted(NAMED_MAC_POS.items()):
+        mac = NAMED_MAC % pos
+        body = tmpl % {"M": mac}
+        decls = {"crate": ("#![rustfmt::skip::macros(custom_mac)]\n" + body, []),
+                 "enclosing_mod": ("#[rustfmt::skip::macros(custom_mac)]\nmod outer {\n" + body + "}\n", []),
+                 "config_name": (body, [["skip_macro_invocations", "[\"custom_mac\"]"]]), "config_star": (body, [["skip_macro_invocations", "[\"*\"]"]])}
+        if pos not in ("item",):
+            first = body.split("\n")[0]
+            decls["enclosing_item"] = ("#[rustfmt::skip::macros(custom_mac)]\n" + body, [])
+        for dname, (text, cfg) in sorted(decls.items()):
+            for w in ("100", "30"):
+                cases.append({"text": text, "config": [["max_width", w]] + cfg, "again": False, "lex": False})
+                meta.append(("macros", pos, dname, mac))
+    res = common.run_vh_pool("pool", cases, per_case_timeout=15)
+    from . import pool
+    found = n = 0
+    for (what, pos, dname, needle), c, r in zip(meta, cases, res):
+        if not pool.accepted(r):
+            continue
+        n += 1
+        # the bytes of the attribute / macro call, re-indented line by line at most (the first line's indentation follows the node)
+        out = r["out"]
+        lines = needle.split("\n")
+        ok = lines[0] in out and all(l.strip() in out for l in lines[1:]) and (" ".join(x.strip() for x in lines) not in out)
+        body_ok = norm_nl(needle) in norm_nl(out) or all(l in out for l in lines)
+        if not (ok and body_ok):
+            if rep.violation("named_skip:%s:%s:%s" % (what, pos, dname), {"what": what, "position": pos, "declared": dname, "config": c["config"], "input": c["text"], "out": out, "expected_bytes": needle},
+                             "the %s named by rustfmt::skip::%s (%s, name declared at %s) does not keep its bytes: %r" % ("attribute" if what == "attributes" else "macro call", what, pos, dname, needle)):
+                found += 1
+    rep.coverage["named_skip_runs_judged"] = n
+    rep.coverage["named_skip_rule"] = "a badly laid-out attribute #[custom(..)] at %d positions (top-level / impl / trait items, statements directly in a function, in a closure body, in a block expression, in a match arm, in an impl method, fields, variants, nested modules) with rustfmt::skip::attributes(custom) declared at crate level, on an enclosing module, function or impl; a badly laid-out call custom_mac!(..) at %d positions with the name declared by rustfmt::skip::macros at crate level / an enclosing module / the enclosing item, or by skip_macro_invocations (the name, or *); two widths: the bytes must reappear" % (len(NAMED_ATTR_POS), len(NAMED_MAC_POS))
+    return found
+
+
 def whole_file(rep):
     """whole-file opt-outs with the real binary: file unchanged, not listed by -l, --check exits 0"""
     ok, blog, _ = common.build_bins()
@@ -423,7 +493,7 @@ def run(tier, seed, replay):
             if not a:
                 if rep.violation("site_missing:%s" % m, {"file": f, "marker": m}, "formatting entry point %s not found in %s (inventory out of date)" % (m, f), no_input=True):
                     found += 1
-        return found + e2e(rep, tier_, seed_)
+        return found + e2e(rep, tier_, seed_) + named_skips(rep, tier_, seed_)
 
     return common.standard_run(
         PROP, tier, seed, replay,
